@@ -45,7 +45,7 @@ def write_mc(ctx, d, pairwise, sits=None):
         raise engine.Inconclusive('no validator is free of proposer duty in rounds (1,0..2),(2,0..1): %s' % live)
     T = free[0]
     mod = ['---- MODULE MC_PeerInput ----', 'EXTENDS PeerInput', 'PowerT == <<1, 1, 1, 1>>', 'LiveT == ' + tm.tla_seq(live),
-           'StaleT == ' + tm.tla_seq(stale), 'MCPower == [i \\in 1..4 |-> PowerT[i]]',
+           'StaleT == ' + tm.tla_seq(stale), 'MCPower == [i \\in 1..4 |-> PowerT[i]]', 'MCNextPower == <<>>',
            'MCLive == [h \\in 1..%d |-> [r \\in 0..3 |-> LiveT[h][r + 1]]]' % len(live),
            'MCStale == [h \\in 1..%d |-> StaleT[h]]' % len(stale),
            'MCSits == {%s}' % ', '.join('"%s"' % s for s in (sits or SITS)), '====']
